@@ -65,6 +65,19 @@ pub fn vx_any<T, F: Fn(&T) -> bool>(v: &[T], f: F) -> (r: bool)
     false
 }
 
+/// R12: `m.iter().filter(p).map(|(k, v)| (*k, *v)).collect()` — the sub-map of the entries satisfying p (assumed
+/// std iterator semantics; the predicate closure stays verbatim at the call site and is verified there)
+#[verifier::external_body]
+pub fn vx_hashmap_filter_copy<K: Copy + Eq + core::hash::Hash, V: Copy, S: core::hash::BuildHasher + Default, F: Fn(&(&K, &V)) -> bool>(
+    m: &std::collections::HashMap<K, V, S>, f: F) -> (r: std::collections::HashMap<K, V, S>)
+    requires forall|k: &K, v: &V| call_requires(f, (&(k, v),)),
+    ensures
+        forall|k: K| #[trigger] r@.contains_key(k) ==> (m@.contains_key(k) && r@[k] == m@[k] && call_ensures(f, (&(&k, &m@[k]),), true)),
+        forall|k: K| (#[trigger] m@.contains_key(k) && !r@.contains_key(k)) ==> call_ensures(f, (&(&k, &m@[k]),), false),
+{
+    m.iter().filter(|p| f(p)).map(|(k, v)| (*k, *v)).collect()
+}
+
 /*@vx:begin PRELUDE::vx_sanity*/
 // must FAIL: if it verified, the assumed contracts above would be contradictory
 proof fn vx_sanity__vxtwin_prelude()
